@@ -382,10 +382,12 @@ def one(job):
         subprocess.run(["rsync", "-a", "--exclude", ".git", "--exclude", "__pycache__", "/repo/", tmp + "/"], check=True)
         p = os.path.join(tmp, rel)
         old = open(p).read()
-        try:
-            new = transform(tname, old)
-        except Exception as e:
-            return tname, rel, "TRANSFORM-ERROR", f"{type(e).__name__}: {e}", None
+        # transformed in a subprocess: the ast module shares context/operator singletons between trees, which makes
+        # concurrent in-process transformations interfere
+        r0 = subprocess.run(["/venv/bin/python", os.path.abspath(__file__), "emit", tname, rel], capture_output=True, text=True)
+        new = r0.stdout
+        if r0.returncode != 0 or not new.strip():
+            return tname, rel, "TRANSFORM-ERROR", r0.stderr[-200:], None
         changed = ast.dump(ast.parse(old)) != ast.dump(ast.parse(new))
         open(p, "w").write(new)
         tres = None
